@@ -710,7 +710,22 @@ class Engine:
             src = ast.unparse(node)
         except Exception:
             return None
-        for pat, kind, note in abss:
+        for ab in abss:
+            pat, kind, note = ab[0], ab[1], ab[2]
+            if src == pat and len(ab) > 3:
+                # the expression is SOME function of the listed arguments (an uninterpreted function the contracts can name)
+                ufname, argsrc = ab[3]
+                self.trusted.add("abstraction in %s: `%s` is %s(%s), an uninterpreted function (%s)" % (
+                    self.frame.qual, pat, ufname, ", ".join(argsrc), note))
+
+                def g(st, ufname=ufname, argsrc=argsrc):
+                    from . import calls
+                    def go(i, s, acc):
+                        if i == len(argsrc):
+                            return calls.call_spec(self, s, ufname, acc, {})
+                        return self.bind(self.eval(ast.parse(argsrc[i], mode="eval").body, s), lambda s2, v: go(i + 1, s2, acc + [v]))
+                    return go(0, st, [])
+                return g
             if src == pat:
                 self.trusted.add("abstraction in %s: `%s` is an arbitrary %s (%s)" % (self.frame.qual, pat, kind, note))
                 k = parse_kind(kind)
